@@ -255,7 +255,10 @@ func getters(c *evid.Ctx) {
 		return
 	}
 	defer os.RemoveAll(e.dir)
-	values := []string{"", "true", "TRUE", "1", "x", "12", "-1", "2147483648", "1.5", "1e3", " 7 ", "a,b", "1, 2,x", "0", "false", "9223372036854775807"}
+	values := []string{"", "true", "TRUE", "1", "x", "12", "-1", "2147483648", "1.5", "1e3", " 7 ", "a,b", "1, 2,x", "0", "false", "9223372036854775807",
+		// the borders of every numeric domain, just inside and just outside
+		"2147483647", "-2147483648", "-2147483649", "9223372036854775808", "-9223372036854775808", "-9223372036854775809",
+		"3.4028235e38", "-3.4028235e38", "3.5e38", "-4e38", "1e39", "1e308", "1e400", "1e-50", "+5", "-0", "1_000", "0x10", "12abc", "Inf"}
 	var sb strings.Builder
 	for i, v := range values {
 		fmt.Fprintf(&sb, "key%d=%s\n", i, v)
